@@ -104,6 +104,7 @@ func verifH_C10_offline() {
 	st, e = verifExState(pingDone)
 	verifAssert(st == 2 && errors.Is(e, ErrBreak), "C10: pending ping not released with ErrBreak on connection loss")
 	verifAssert(conn.closed, "C10: failed connection left open")
+	verifNextConnectionWorks(c, store, "C10")
 	verifReach("offline")
 }
 
